@@ -184,6 +184,19 @@ def check_volume(rng):
         w = w.copy()
         w[0] = 10 ** rng.uniform(-9, -5) * w[1:].sum()
         w /= w.sum()
+    if rng.random() < 0.12 and "|" not in kind and kind != "rank-deficient" and n >= 12 * d:
+        # a late persistent-sampling pool: broad early samples whose weights have underflowed to almost nothing, and a tight
+        # cluster carrying all the weight, 1e4..1e8 of its own spreads away from where most samples are
+        kind = kind + "|tight-subcloud"
+        m_sub = max(d + 3, int(n * rng.uniform(0.1, 0.4)))
+        sub = rng.choice(n, size=m_sub, replace=False)
+        centre = rng.standard_normal(d)
+        centre /= np.linalg.norm(centre)
+        spread_sub = 10 ** rng.uniform(-8, -4)
+        x[sub] = 3.0 * centre + spread_sub * rng.standard_normal((m_sub, d))
+        w = np.full(n, 10.0 ** -rng.uniform(30, 300))
+        w[sub] = rng.dirichlet(np.full(m_sub, 3.0))
+        w /= w.sum()
     if rng.random() < 0.2 and d > 1:
         # structurally degenerate pools (the regularised branch of the metric): a constant coordinate, a repeated coordinate,
         # or fewer than d+1 samples carrying weight
@@ -276,11 +289,13 @@ def check_volume(rng):
         if abs(vs - v) > 1e-6 * max(v, 1e-12):
             bad.append(("volume-sample-scale", f"samples multiplied by {c}: {v!r} -> {vs!r}"))
             break
-    # weight rescaling
-    if w is not None:
+    # weight rescaling (the weighted mean is subtracted from the samples: |mean|/spread digits are lost to rounding, whatever the weights' scale)
+    amp = 1.0 + float(np.linalg.norm(mu)) / max(float(np.sqrt(np.trace(cov) / d)), 1e-300)
+    tolw = 1e-9 + 100 * np.finfo(float).eps * amp * k0
+    if w is not None and tolw <= 1e-3:
         for c in (1e-8, 3.0, 1e12):
             v2 = float(volume_variation(x, w * c))
-            if abs(v2 - v) > 1e-9 * max(v, 1e-12):
+            if abs(v2 - v) > tolw * max(v, 1e-12):
                 bad.append(("volume-weight-scale", f"rescaling weights by {c}: {v!r} -> {v2!r}"))
     # weight sums within sqrt(eps) of one (the tolerance other routines use to skip renormalisation), samples far from the origin
     if w is not None:
@@ -364,6 +379,8 @@ def run():
                 ck.event("volume_variation under exact power-of-two rescaling of the samples", vdesc.get("pow2", 0))
                 ck.event("degenerate pools under a rigid motion (rank decision robust for both clouds)", vdesc.get("rigid", 0))
                 ck.event("float32 sample arrays under exact per-axis power-of-two scalings", vdesc.get("f32", 0))
+                if "|tight-subcloud" in vdesc.get("kind", ""):
+                    ck.event("pools whose weight sits on a tight cluster 1e4..1e8 of its spreads away from the bulk of the samples" + (" (affine pair judged)" if judged else ""))
                 if "|outlier" in vdesc.get("kind", ""):
                     ck.event("pools with one sample > 1000 standard deviations away carrying 1e-9..1e-5 of the weight" + (" (affine pair judged)" if judged else ""))
                 if "+" in vdesc.get("kind", ""):
